@@ -41,6 +41,12 @@ def hull_cases(draw):
         data = [[a + gen.JITTER[(3 * a + b) % 12], b + gen.JITTER[(a + 5 * b + 2) % 12]] for a, b in cells]
         m = draw(st.integers(1, 30))
         query = [[draw(gen.finite(-2, 14)), draw(gen.finite(-2, 14))] for _ in range(m)]
+    # re-occupied stations: some positions occur more than once (the hull does not change), preferably extreme ones
+    if draw(st.integers(0, 2)) == 0:
+        extreme = sorted(range(len(data)), key=lambda i: (data[i][0], data[i][1]))
+        for i in draw(st.lists(st.sampled_from([extreme[0], extreme[-1]] + list(range(len(data)))), min_size=1, max_size=3)):
+            data = data + [list(data[i])]
+        n = len(data)
     k = draw(st.integers(-3, 7))
     scale = 10.0 ** k
     aspect = draw(st.sampled_from([1.0, 1.0, 0.1, 10.0, 3.0]))
